@@ -1,0 +1,9 @@
+//go:build !verif
+
+package uu
+
+func verifEnter() {}
+
+func verifExit() {}
+
+func verifDrawn(_, _ uint64) {}
